@@ -1,5 +1,11 @@
 use vstd::prelude::*;
 verus! {
+use vstd::std_specs::cmp::*;
+use core::cmp;
+pub assume_specification<T: core::cmp::Ord>[core::cmp::max::<T>](a: T, b: T) -> (r: T)
+    ensures T::obeys_cmp_spec() ==> r == (if b.cmp_spec(&a) == core::cmp::Ordering::Less { a } else { b });
+pub assume_specification<T: core::cmp::Ord>[core::cmp::min::<T>](a: T, b: T) -> (r: T)
+    ensures T::obeys_cmp_spec() ==> r == (if b.cmp_spec(&a) == core::cmp::Ordering::Less { b } else { a });
 // std definition of Result::or_else (trusted)
 pub assume_specification<T, E, F, O: FnOnce(E) -> Result<T, F>>[core::result::Result::<T, E>::or_else](r: Result<T, E>, op: O) -> (o: Result<T, F>)
     requires r is Err ==> op.requires((r->Err_0,)),
